@@ -217,6 +217,20 @@ func (c *Ctx) rulesC20() {
 				if _, ok := ins.(*ssa.Panic); ok && ins.Pos().IsValid() {
 					fk := funcKey(topFunc(f))
 					_, okp := panicTable[fk]
+					if !okp {
+						// a private helper shared by tabled functions only
+						tf := topFunc(f)
+						if tf.Object() != nil && !tf.Object().Exported() {
+							if sites, vals := c.allCallersOf(tf); len(vals) == 0 && len(sites) > 0 {
+								okp = true
+								for _, s := range sites {
+									if _, in := panicTable[funcKey(topFunc(s.Fn))]; !in {
+										okp = false
+									}
+								}
+							}
+						}
+					}
 					c.check(okp, "C20.panic", "explicit panic in "+fk, ins.Pos(), "explicit panic outside the sanctioned table")
 				}
 			}
